@@ -285,10 +285,15 @@ MACRO_BY_NAME = {m.name: m for m in MACROS}
 class Renderer:
     """skeleton -> esast statements; concrete forms round-robin from the pools, all numbers running."""
 
-    def __init__(self, start: int = 0, avoid_scn_caseop: bool = True, macros: bool = True):
+    POOLS = ("opargs", "p1", "assign", "p2", "msg", "marg", "T", "cond", "swh", "caseh", "para")
+
+    def __init__(self, start: int = 0, avoid_scn_caseop: bool = True, macros: bool = True, phase: int = 0):
+        """phase: where the round-robin of every pool starts (families pass the program index, so that over a family
+        every concrete form appears in every position)"""
         self.macros = macros
         self.n = start  # running number: distinguishes ops / values
-        self.k: dict = {}  # per pool round-robin counters
+        # per pool round-robin counters; different strides per pool so that the pools are not in lockstep
+        self.k: dict = {p: phase * (j + 1) for j, p in enumerate(self.POOLS)} if phase else {}
         self.used_macros: set = set()
         self.avoid_scn_caseop = avoid_scn_caseop
 
@@ -489,7 +494,9 @@ def with_body(r: A.Routine, body: Optional[tuple]) -> A.Routine:
     return A.Routine(r.kind, r.id, r.name, r.target_kind, r.target, r.legacy_target, body)
 
 
-def make_program(bodies: list, header_variant: int = 0, coro: bool = False, rnd: Optional[Renderer] = None) -> A.Program:
+def make_program(
+    bodies: list, header_variant: int = 0, coro: bool = False, rnd: Optional[Renderer] = None
+) -> A.Program:
     """bodies: list of skeleton blocks (or None for an alias routine)."""
     rnd = rnd or Renderer()
     routines = []
@@ -721,7 +728,7 @@ def space(tier: str) -> list:
         sk = Skeletons(**kw)
 
         def single(block: tuple, i: int, where: Optional[str] = where) -> A.Program:
-            return _with_label(make_program([block], header_variant=-1), where)
+            return _with_label(make_program([block], header_variant=-1, rnd=Renderer(phase=i)), where)
 
         fams.append(Family(name, sk.blocks_upto(S, D), single))
 
@@ -731,7 +738,7 @@ def space(tier: str) -> list:
     with_alias = Alt([one, Lit(None)])
 
     def multi(bodies: tuple, i: int) -> A.Program:
-        return make_program(list(bodies), header_variant=i % 14, coro=(i % 5 == 4))
+        return make_program(list(bodies), header_variant=i % 14, coro=(i % 5 == 4), rnd=Renderer(phase=i))
 
     fams.append(Family("multi2", Prod(lambda x, y: (x, y), one, with_alias), multi))
     three = Prod(lambda x, y, z: (x, y, z), one, with_alias, one)
@@ -926,7 +933,7 @@ def flat_space(tier: str) -> list:
     fams = []
 
     def single(block: tuple, i: int) -> A.Program:
-        return make_program([block], header_variant=(i % 7) * 2, rnd=Renderer(macros=False, avoid_scn_caseop=False))
+        return make_program([block], header_variant=(i % 7) * 2, rnd=Renderer(macros=False, avoid_scn_caseop=False, phase=i))
 
     full = FlatSkeletons(**t["full"]).block_item()
     contexts = [lambda it: (it,) + _T, lambda it: (("P1",), it) + _T, lambda it: (it, ("P2",)) + _T,
@@ -944,7 +951,9 @@ def flat_space(tier: str) -> list:
     rt = FlatSkeletons(**t["routines"]).block_item()
 
     def multi(bodies: tuple, i: int) -> A.Program:
-        return make_program(list(bodies), header_variant=(i % 7) * 2, coro=(i % 4 == 3), rnd=Renderer(macros=False, avoid_scn_caseop=False))
+        return make_program(
+            list(bodies), header_variant=(i % 7) * 2, coro=(i % 4 == 3), rnd=Renderer(macros=False, avoid_scn_caseop=False, phase=i)
+        )
 
     fams.append(Family("flat-routines", Prod(lambda x, y: ((x,) + _T, (y,) + _T), rt, rt), multi))
     return fams
